@@ -241,13 +241,17 @@ func famPipeline(dir string, seed int64, tier string) {
 		if err != nil {
 			continue
 		}
+		// (the directed inputs are inside the schema-less domain by construction: decoding them into `any` and
+		// marshalling the result again IS the identity - the stage StAnyRoundTrip on its own)
 		var x any
 		if e := guard(func() error { return copyBudget(tokensFrom(ts), sb.Unmarshal(&x)) }); e != nil {
 			rep.count("directed-input-not-decodable")
+			rep.violate("C13", "pipeline-error", fmt.Sprintf("unmarshalling a value stream of the schema-less domain into `any` failed: %v", e), fmt.Sprintf("directed input %d: [%s]", di, truncate(descTokens(ts), 300)))
 			continue
 		}
 		if ts2, e2 := marshalTokens(x, nil); e2 != nil || !tokensExactEq(ts, ts2) {
 			rep.count("directed-input-not-stable")
+			rep.violate("C13", "pipeline-not-identity", fmt.Sprintf("unmarshal into `any`, then marshal: [%s] (%v) differs from the input", truncate(descTokens(ts2), 300), e2), fmt.Sprintf("directed input %d: [%s]", di, truncate(descTokens(ts), 300)))
 			continue
 		}
 		rep.count("directed-input")
